@@ -13,6 +13,11 @@ from .. import universe as uni
 from ..dsl import UserError
 
 PROP = 'C17'
+
+
+class Abort(BaseException):
+    """A non-Exception BaseException (like KeyboardInterrupt) raised by an owner function."""
+
 METHODS = ['exists', 'is_file', 'is_dir', 'get_size', 'read_text', 'read_binary', 'declare_read', 'list_dir', 'walk',
            'build_file', 'subbuild']
 KINDS = ['root', 'sb', 'bf']
@@ -248,7 +253,7 @@ def work(ctx, task):
         # strictly after the owner finished, one thread
         sb = R.sb
         for K in KINDS:
-            for mode in ('return', 'raise'):
+            for mode in ('return', 'raise', 'raise_base'):
                 for M in METHODS:
                     R.prepare()
                     keep = {}
@@ -258,11 +263,21 @@ def work(ctx, task):
                         keep['b'] = b2
                         if mode == 'raise':
                             raise UserError('x')
+                        if mode == 'raise_base':
+                            raise Abort('x')
                         return 1
 
                     def root(b):
                         if K == 'root':
                             return owner_body(b)
+                        if mode == 'raise_base':
+                            # a BaseException is not caught: it ends the whole build
+                            if K == 'sb':
+                                b.subbuild('owner', owner_body)
+                            else:
+                                def obf0(b2, p):
+                                    return owner_body(b2)
+                                b.build_file(sb.p('own/out'), 'owner', obf0)
                         try:
                             if K == 'sb':
                                 b.subbuild('owner', owner_body)
@@ -272,22 +287,23 @@ def work(ctx, task):
                                         f.write('x')
                                     return owner_body(b2)
                                 b.build_file(sb.p('own/out'), 'owner', obf)
-                        except UserError:
+                        except (UserError, Abort):
                             pass
                         if K != 'root':
                             keep['inner'] = call_guarded(R, keep['b'], M, log)
                         return 0
                     try:
                         R.FB.build(R.cache, BUILD, root)
-                    except UserError:
+                    except (UserError, Abort):
                         pass
                     before = R.tree()
-                    res = keep.get('inner') if K != 'root' else call_guarded(R, keep['b'], M, log)
+                    res = (keep.get('inner') if (K != 'root' and mode != 'raise_base')
+                           else call_guarded(R, keep['b'], M, log))
                     counters['executions'] += 1
                     outcomes.add(('seq', K, mode, M, res))
                     if res != 'RuntimeError':
                         add('fence.no_error_after_finish', {'builder': K, 'method': M, 'owner': mode}, {'sequential': [K, mode, M]}, {'result': res})
-                    if log or (K == 'root' and R.tree() != before):
+                    if log or ((K == 'root' or mode == 'raise_base') and R.tree() != before):
                         add('fence.effect_despite_error', {'builder': K, 'method': M, 'owner': mode, 'effect': 'sequential'},
                             {'sequential': [K, mode, M]}, {})
         return {'counters': counters, 'violations': violations, 'outcomes': {str(x) for x in outcomes},
@@ -352,7 +368,8 @@ def coverage(res, tier):
         'scenarios_completed_at_bound': {k: v for k, v in c.items() if k.startswith('b') and k[1:].lstrip('-').isdigit()},
         'distinct_outcomes': len(res.outcomes),
         'exhaustive': not res.capped,
-        'rule': 'states = executions: 66 sequential cases (method called strictly after the owner finished) + every '
+        'rule': 'states = executions: 99 sequential cases (method called strictly after the owner returned, raised an '
+                'Exception or raised a BaseException) + every '
                 'schedule with <= bound preemptions of 66 race scenarios (11 methods x builder kind root/subbuild/'
                 'build_file x owner returns/raises; the straggler thread is started by the owner function and races '
                 'with its return; flag reads/writes, lock acquires and file-system calls are schedule points). Per '
